@@ -43,7 +43,7 @@ class Prop:
         return i["status"] in ("OK", "CE")
 
     def key(self, c):
-        return {k: c.get(k) for k in ("kind", "text", "expr", "vars", "lines", "files", "name", "opts")}
+        return {k: c.get(k) for k in ("kind", "text", "expr", "vars", "lines", "files", "name", "opts", "global", "project")}
 
     def ignore_disagreement(self, c, m, i):
         return False
